@@ -15,6 +15,22 @@ VERIF = os.path.dirname(os.path.dirname(os.path.abspath(__file__)))
 sys.path.insert(0, VERIF)
 
 
+def cpu_budget():
+    """usable cores: affinity mask and cgroup quota, whichever is smaller"""
+    n = os.cpu_count() or 4
+    try:
+        n = min(n, len(os.sched_getaffinity(0)))
+    except Exception:
+        pass
+    try:
+        q, p = open("/sys/fs/cgroup/cpu.max").read().split()
+        if q != "max":
+            n = min(n, max(1, int(int(q) / int(p))))
+    except Exception:
+        pass
+    return max(1, min(16, n))
+
+
 def load_known(pid):
     p = os.path.join(VERIF, "known_findings.json")
     if not os.path.exists(p):
@@ -48,7 +64,7 @@ def main(argv=None):
     ap.add_argument("pid")
     ap.add_argument("--tier", default=os.environ.get("VERIF_TIER", "quick"))
     ap.add_argument("--replay")
-    ap.add_argument("--jobs", type=int, default=int(os.environ.get("VERIF_JOBS", "0")) or min(16, os.cpu_count() or 4))
+    ap.add_argument("--jobs", type=int, default=int(os.environ.get("VERIF_JOBS", "0")) or cpu_budget())
     ap.add_argument("--only", default=None, help="comma separated harness names")
     ap.add_argument("--max-skel", type=int, default=0)
     ap.add_argument("--no-evidence", action="store_true")
